@@ -649,7 +649,12 @@ impl ZiPatch {
                                     new_file.write_all(&data)?;
                                 }
                                 SqpkFileOperation::DeleteFile => {
-                                    if fs::remove_file(file_path.as_str()).is_err() {
+                                    // a file that is already gone is fine, anything else is a
+                                    // failed patch
+                                    if let Err(err) = fs::remove_file(file_path.as_str()) {
+                                        if err.kind() != std::io::ErrorKind::NotFound {
+                                            return Err(err.into());
+                                        }
                                         warn!("Failed to remove {file_path}");
                                     }
                                 }
